@@ -807,3 +807,63 @@ pub fn c02_ws_extract<const N: usize>() {
     kani::cover!(N < 3 || (others > limit && limit >= 1), "random selection branch");
     std::mem::forget(v);
 }
+
+/// C09, lean variant for one stored receiver R and one offer (the general harness above exceeds
+/// 44 GB at N=1): fresh sender S announces one offer; exactly one OfferOutMessage goes to R's own
+/// connection, tagged with S's peer id and the offer id (unless max_offers == 0 or S stops), S
+/// records exactly the expectation (R, offer id) with deadline clock+max_offer_age; the last
+/// message is the announce reply to S.
+pub fn c09_offer_one() {
+    let h: [u8; 20] = kani::any();
+    let ents = any_wents::<1>();
+    let mut m = mk_map(h, &ents);
+    let now: u32 = kani::any();
+    kani::assume(now < u32::MAX - 1000);
+    aquatic_common::verif_shims::set_mock_clock(Some(now));
+    let max_offers: usize = kani::any();
+    kani::assume(max_offers <= 2);
+    let config = mk_config(max_offers, 4, 100, 60, AccessListMode::Off);
+    let mut rng = any_rng();
+    let mut out: Vec<(OutMessageMeta, OutMessage)> = Vec::with_capacity(2);
+    let pid: [u8; 20] = kani::any();
+    kani::assume(ents[0].pid != pid);
+    let oid: [u8; 20] = kani::any();
+    let mut offers = Vec::with_capacity(1);
+    offers.push(AnnounceRequestOffer { offer: RtcOffer { t: RtcOfferType::Offer, sdp: String::new() }, offer_id: OfferId(oid) });
+    let mut req = bare_request(h, pid);
+    req.offers = Some(offers);
+    let stopped = req.event == Some(AnnounceEvent::Stopped);
+    let c2: u8 = kani::any();
+    let k2: u32 = kani::any();
+    let meta = InMessageMeta { out_message_consumer_id: ConsumerId(c2), connection_id: conn(k2), ip_version: IpVersion::V4, pending_scrape_id: None };
+    m.handle_announce_request(&config, &mut rng, &mut out, aquatic_common::ServerStartInstant::new(), meta, req);
+    let want = if stopped || max_offers == 0 { 0 } else { 1 };
+    assert!(out.len() == want + 1, "forwarded offers != min(offers, max_offers, other peers) (+ the announce reply)");
+    match &out[want] {
+        (om, OutMessage::AnnounceResponse(_)) => assert!(om.out_message_consumer_id.0 == c2 && om.connection_id == conn(k2), "announce reply addressed to the wrong connection"),
+        _ => assert!(false, "last message must be the announce reply"),
+    }
+    let t = m.torrents.get(&InfoHash(h)).unwrap();
+    if want == 1 {
+        match &out[0] {
+            (om, OutMessage::OfferOutMessage(o)) => {
+                assert!(om.out_message_consumer_id.0 == ents[0].consumer && om.connection_id == conn(ents[0].conn), "offer must go to the receiving peer's own connection");
+                assert!(o.peer_id.0 == pid && o.offer_id.0 == oid && o.info_hash.0 == h, "offer must carry the sender's peer id, its offer id and the info hash");
+            }
+            _ => assert!(false, "offer slot holds another message kind"),
+        }
+        let sp = t.peers.get(&PeerId(pid)).unwrap();
+        assert!(sp.expecting_answers.len() == 1, "exactly one expectation per forwarded offer");
+        let (ea, vu) = sp.expecting_answers.get_index(0).unwrap();
+        assert!(ea.from_peer_id.0 == ents[0].pid && ea.regarding_offer_id.0 == oid, "expectation must name the receiver and the offer id");
+        assert!(deadline_is(vu, now + 60), "offer expectation deadline = clock + max_offer_age");
+    } else if !stopped {
+        let sp = t.peers.get(&PeerId(pid)).unwrap();
+        assert!(sp.expecting_answers.len() == 0, "expectation recorded although nothing was forwarded");
+    }
+    kani::cover!(want == 1, "offer forwarded");
+    kani::cover!(want == 0 && !stopped, "offer dropped by max_offers 0");
+    std::mem::forget(out);
+    std::mem::forget(m);
+    std::mem::forget(config);
+}
